@@ -292,7 +292,15 @@ def translate(run):
         elif label == "wait" or label == "parked:event":
             if "wait:F" in st.events:
                 acts.append("t" + call[1:])
-                check("timeout")
+                if res != "-":
+                    # the call ended within the step of the timed-out wait: what follows the wait touched no shared
+                    # attribute (a line that does is a scheduling point of its own, labelled or `unknown:`), e.g.
+                    # `if not result: return result` as a guard clause of its own.  That local tail is the model's
+                    # `readExc1` step with w = false (it reads nothing: waitGuard) - fed here, compared after it.
+                    acts.append(step_tok)
+                    check("readExc1")
+                else:
+                    check("timeout")
             else:
                 acts.append(step_tok)
                 check("wait")
